@@ -686,6 +686,26 @@ pub fn classify_duplicates(structs: &[RStruct], etree: Option<&ENode>, m: &SNode
                                 }
                             }
                         }
+                        // the listed finding is the ambiguity of a NEEDED qualification: a member that is
+                        // qualified although its own PascalCase name occurs at a single position of the
+                        // tree points at another cause
+                        if class == "concat-ambiguity" {
+                            let mut all: Vec<String> = Vec::new();
+                            fn collect(m: &SNode, out: &mut Vec<String>) {
+                                out.push(pascal(&m.name));
+                                for c in &m.children {
+                                    collect(&c.node, out);
+                                }
+                            }
+                            collect(m, &mut all);
+                            for (t, w) in traces.iter().zip(ws.iter()) {
+                                let own = t.last().cloned().unwrap_or_default();
+                                let k = w.as_ref().map(|w| w.len()).unwrap_or(1);
+                                if k >= 2 && all.iter().filter(|n| **n == own).count() < 2 {
+                                    class = "concat-of-needless-qualification";
+                                }
+                            }
+                        }
                     }
                 }
                 format!("dup-struct:{}", class)
